@@ -20,6 +20,9 @@ def sites_of(fi):
             yield {"kind": "panic", "line": n["line"], "col": n["col"], "detail": f"{n['last']}!({marker!r})" if marker else f"{n['last']}!()", "node": n, "parents": parents}
         elif k == "MethodCall" and n["method"] in ("unwrap", "expect"):
             yield {"kind": "unwrap", "line": n["mline"], "col": n["col"], "detail": render(n["recv"]) + "." + n["method"] + "()", "node": n, "parents": parents}
+        elif k == "Path" and n["segs"][-1] in ("unwrap", "expect", "unwrap_err", "expect_err") and len(n["segs"]) > 1:
+            # UFCS call `Option::unwrap(x)` or the function passed as a value `.map(Option::unwrap)`
+            yield {"kind": "unwrap", "line": n["line"], "col": n.get("col", 0), "detail": render(n) + "(ufcs)", "node": n, "parents": parents}
         elif k == "Index":
             yield {"kind": "index", "line": n["line"], "col": n["col"], "detail": render(n), "node": n, "parents": parents}
         elif k == "Binary" and n["op"] in ("-", "/", "%", "-=", "/=", "%="):
